@@ -281,7 +281,7 @@ pub enum POp {
     /// (name index among names interned so far, version set label index)
     VSet(u8, u8),
     Solvable(u8),
-    /// union of the last k interned version sets (k = 2 or 3); k = 9: three members, the first repeated
+    /// union of the last k interned version sets (k = 2 or 3); k = 9 / 8 / 7: members [x, y, x] / [x, x] / [x, x, y]
     Union(u8),
 }
 
@@ -489,12 +489,22 @@ fn p_build_inner(prefill: usize, hist: &[POp]) -> Result<Vec<usize>, (String, St
                 r.solvs.push((name, rec));
             }
             POp::Union(k) => {
-                let need = if k == 9 { 2 } else { k as usize };
+                // k = 9: [x, y, x]; k = 8: [x, x] (adjacent equal members); k = 7: [x, x, y]
+                let need = match k {
+                    9 | 7 => 2,
+                    8 => 1,
+                    _ => k as usize,
+                };
                 if r.vsets.len() < need {
                     continue;
                 }
                 let last = r.vsets.len() as u32 - 1;
-                let members: Vec<u32> = if k == 9 { vec![last, last - 1, last] } else { (0..k as u32).map(|i| last - i).collect() };
+                let members: Vec<u32> = match k {
+                    9 => vec![last, last - 1, last],
+                    8 => vec![last, last],
+                    7 => vec![last, last, last - 1],
+                    _ => (0..k as u32).map(|i| last - i).collect(),
+                };
                 let id = pool.intern_version_set_union(VersionSetId(members[0]), members[1..].iter().map(|&m| VersionSetId(m)));
                 if id.0 as usize != r.unions.len() {
                     return Err(("intern-union-id".into(), format!("step {step}: union got id {} (expected unique dense id {})", id.0, r.unions.len())));
@@ -548,6 +558,8 @@ pub fn run_c18(ctx: &Ctx) -> i32 {
     ops.push(POp::Union(2));
     ops.push(POp::Union(3));
     ops.push(POp::Union(9));
+    ops.push(POp::Union(8));
+    ops.push(POp::Union(7));
     // 128 + {3,4,7,8,15,16,..}: a chunk that was not pre-sized would reallocate right after these sizes
     let prefills: Vec<usize> = vec![0, 126, 127, 128, 131, 132, 135, 136, 143, 144, 159, 160, 191, 192, 255, 256, 10_000, 10_125, 10_127];
     let results: Vec<(Acc, u64, u64)> = std::thread::scope(|sc| {
